@@ -1563,6 +1563,16 @@ impl<'a> Run<'a> {
         if self.mon.c08 && self.slots[idx].sealed && op == "seal" {
             self.check_c08_seal(idx);
         }
+        // C12 over an application base symbol table: the sealed value in memory and the sealed
+        // bytes read back (from_with_symbols) mean what the token meant before
+        if self.mon.c12 && self.slots[idx].sealed && op == "seal" {
+            let before = self.violations.len();
+            self.check_c08_seal_over_base(idx);
+            for v in self.violations[before..].iter_mut() {
+                v.property = "C12".to_string();
+                v.class = format!("twin-differs-over-base-table-{}", v.class);
+            }
+        }
         // always track revocation ids (cheap), used by C15
         if let Ok((_, c)) = refchain::content_of(&bytes) {
             for b in &c.blocks {
@@ -1622,6 +1632,23 @@ impl<'a> Run<'a> {
                 "roundtrip-view-differs",
                 format!("decode paths expose different tokens for slot {idx}"),
             );
+        }
+        // a token the API built exposes blocks that can be read (two decode paths that both fail
+        // to read a block agree with each other)
+        for i in 0..a.block_count() {
+            let (src, ver) = (a.print_block_source(i), a.block_version(i));
+            if src.is_err() || ver.is_err() {
+                self.violate(
+                    "C02",
+                    "roundtrip-view-differs",
+                    format!("slot {idx}: block {i} of a token the API built cannot be read back: source {:?}, version {:?}", src.err(), ver.err()),
+                );
+                break;
+            }
+        }
+        libeval::install(self.scn.hash_key);
+        if let Err(e) = a.authorizer() {
+            self.violate("C02", "roundtrip-view-differs", format!("slot {idx}: no authorizer can be built for a token the API built: {e:?}"));
         }
         for (name, t) in [("from", &a), ("from_base64", &b), ("unverified", &c)] {
             match t.to_vec() {
